@@ -90,6 +90,9 @@ fn scope(tier: Tier) -> Vec<Case> {
     for p in progs::default_programs(100000).into_iter().step_by(k) {
         push("U_P-default", p, &mut out);
     }
+    for p in progs::shape_programs().into_iter().step_by(tier.pick(3, 1)) {
+        push("U_P-shapes", p, &mut out);
+    }
     out
 }
 
